@@ -229,6 +229,48 @@ def gen_docstring(repo):
     t_cls = ast.parse(src(repo, F_CLS))
     cb = body_of(find_func(t_cls, 'pedantic_class_require_docstring'))
     cls_ok = len(cb) == 1 and ast.unparse(cb[0]) == 'return for_all_methods(decorator=pedantic_require_docstring)(cls=cls)'
+    pcb = body_of(find_func(t_cls, 'pedantic_class'))
+    plain_ok = len(pcb) == 1 and ast.unparse(pcb[0]) == 'return for_all_methods(decorator=pedantic)(cls=cls)'
+    # for_all_methods.decorate: what may end it before the loop over cls.__dict__, and what the loop does with a function
+    fam = find_func(t_cls, 'for_all_methods')
+    inner = [n for n in body_of(fam) if isinstance(n, ast.FunctionDef)]
+    if len(inner) != 1 or not inner[0].args.args:
+        raise Skip('for_all_methods: expected one inner function taking the class')
+    dec_fn = inner[0]
+    cls_arg = dec_fn.args.args[0].arg
+    fbody = body_of(dec_fn)
+    loops = [k for k, st in enumerate(fbody) if isinstance(st, ast.For) and ast.unparse(st.iter) == f'{cls_arg}.__dict__']
+    early, decorates_every = [], False
+    if len(loops) != 1:
+        early.append(f'<no single loop over {cls_arg}.__dict__>')
+    else:
+        for st in fbody[:loops[0]]:
+            if isinstance(st, ast.If) and any(isinstance(x, ast.Return) for b in st.body + st.orelse for x in ast.walk(b)):
+                if ast.unparse(st.test) != 'not is_enabled()':
+                    early.append(ast.unparse(st.test).replace('-/', '- /').replace('\n', ' '))
+            elif any(isinstance(x, ast.Return) for x in ast.walk(st)) and not isinstance(st, (ast.FunctionDef, ast.AsyncFunctionDef)):
+                early.append(ast.unparse(st)[:60].replace('-/', '- /').replace('\n', ' '))
+        loop_ = fbody[loops[0]]
+        var = ast.unparse(loop_.target)
+        lbody = list(loop_.body)
+        if len(lbody) == 2 and ast.unparse(lbody[0]) == f'attr_value = getattr({cls_arg}, {var})' and isinstance(lbody[1], ast.If):
+            i1 = lbody[1]
+            decorates_every = (ast.unparse(i1.test) == 'isinstance(attr_value, (types.FunctionType, types.MethodType))'
+                               and [ast.unparse(x) for x in i1.body] == [f'setattr({cls_arg}, {var}, decorator(attr_value))'])
+    early_l = '[' + ', '.join(lean_str(e) for e in early) + ']'
+    out.append(f'''
+/-! ### `for_all_methods` / the class shortcuts (class_decorators.py) -/
+
+/-- `pedantic_class(cls)` is `for_all_methods(decorator=pedantic)(cls=cls)` -/
+def plainClassShortcutUsesPedantic : Bool := {lean_bool(plain_ok)}
+/-- conditions under which `for_all_methods(..)(cls)` returns BEFORE the loop over `cls.__dict__`, other than `not is_enabled()`: a class
+    for which one of them holds is handed back with none of its own methods decorated — none docstring-checked (e.g. a test that an
+    inherited marker of an already decorated base class satisfies) -/
+def forAllMethodsEarlyReturns : List String := {early_l}
+/-- the loop is `for attr in cls.__dict__:` — the class's OWN attributes, whatever its bases are — and it replaces every attribute
+    that is a function by `decorator(<the function>)` (an exception raised by the decorator leaves the class decorator) -/
+def forAllMethodsDecoratesEveryFunction : Bool := {lean_bool(decorates_every)}
+''')
     out.append(f'''
 /-! ### `pedantic.decorator` (fn_deco_pedantic.py) -/
 
